@@ -15,11 +15,16 @@
 (***************************************************************************)
 EXTENDS Naturals, Sequences, FiniteSets, TLC, Json
 
-CONSTANTS NameSeq, MaxVer, MaxContent, MaxSteps, Rotations, Foreign, Plans
+CONSTANTS NameSeq, MaxVer, MaxContent, MaxSteps, Rotations, Foreign, Plans, Expiry
 
 Names == {NameSeq[i] : i \in DOMAIN NameSeq}     \* NameSeq: the names in the order commands take them
 
 Vers   == [ts : 1..MaxVer, sn : 1..MaxVer, tg : 1..MaxVer]
+\* expirations the operator gives a role: TRUE = a date in the past (Expiry = FALSE: never)
+Fresh  == [ts |-> FALSE, sn |-> FALSE, tg |-> FALSE]
+Exps   == IF Expiry THEN [ts : BOOLEAN, sn : BOOLEAN, tg : BOOLEAN] ELSE {Fresh}
+Allows == IF Expiry THEN BOOLEAN ELSE {FALSE}       \* --allow-expired-repo
+IsExpired(e) == e.ts \/ e.sn \/ e.tg
 Absent == [x \in Names |-> 0]
 
 VARIABLES
@@ -38,9 +43,9 @@ vars == <<pub, cli, cl, dl, mono, last, n, hist, plan>>
 view == <<pub, cli, cl, dl, mono, last, n, plan>>
 
 NoPub == [on |-> FALSE, root |-> 1, rot |-> "none", ver |-> [ts |-> 0, sn |-> 0, tg |-> 0],
-          tset |-> Absent, files |-> {}, extra |-> FALSE]
+          tset |-> Absent, files |-> {}, extra |-> FALSE, exp |-> Fresh]
 NoCli == [ts |-> 0, sn |-> 0, sntg |-> 0, tg |-> 0]
-NoCl  == [on |-> FALSE, root |-> 0, ver |-> [ts |-> 0, sn |-> 0, tg |-> 0], meta |-> Absent, files |-> {}]
+NoCl  == [on |-> FALSE, root |-> 0, ver |-> [ts |-> 0, sn |-> 0, tg |-> 0], meta |-> Absent, files |-> {}, exp |-> Fresh]
 NoDl  == [on |-> FALSE, tset |-> Absent]
 
 Init == /\ pub = NoPub /\ cli = NoCli /\ cl = NoCl /\ dl = NoDl /\ mono = TRUE
@@ -53,9 +58,12 @@ Proj(p, c, k, d) == [pub |-> p, cli |-> c, cl |-> k, dl |-> d]
 Step(cmd, ok, err, p, c, k, d) ==
   /\ last' = [act |-> cmd.act, ok |-> ok, err |-> err]
   /\ n' = n + 1
-  /\ hist' = Append(hist, [cmd |-> cmd, ok |-> ok, err |-> err, after |-> Proj(p, c, k, d)])
+  /\ hist' = Append(hist, [cmd |-> cmd, ok |-> ok, err |-> err, before |-> IsExpired(pub.exp), after |-> Proj(p, c, k, d)])
   /\ pub' = p /\ cli' = c /\ cl' = k /\ dl' = d /\ UNCHANGED plan
 
+\* a tool that loads the published repository first (update, transfer-metadata, clone, download) fails
+\* on expired metadata unless it is told --allow-expired-repo
+ToolLoads(allow) == allow \/ ~IsExpired(pub.exp)
 Listed(ts) == {x \in Names : ts[x] # 0}
 Files(ts)  == {<<x, ts[x]>> : x \in Listed(ts)}
 \* names are handled in order; the first one the repository does not list stops the command
@@ -82,21 +90,25 @@ ForeignResign ==
 \* tuftool update: loads the repository, adds the files of a directory (a listed name is
 \* replaced), sets the three versions to whatever the operator says, signs, links the added
 \* files into the targets directory and writes the metadata
-Update(A, c, v) ==
+Update(A, c, v, e, allow) ==
   /\ Can("update") /\ pub.on
-  /\ LET ts == [x \in Names |-> IF x \in A THEN c ELSE pub.tset[x]]
-         p  == [pub EXCEPT !.ver = v, !.tset = ts, !.files = @ \cup {<<x, c>> : x \in A}]
-     IN /\ Step([act |-> "update", add |-> A, content |-> c, ver |-> v], TRUE, "", p, cli, cl, dl)
-        /\ mono' = (mono /\ v.ts >= pub.ver.ts /\ v.sn >= pub.ver.sn /\ v.tg >= pub.ver.tg)
+  /\ LET ts  == [x \in Names |-> IF x \in A THEN c ELSE pub.tset[x]]
+         p   == [pub EXCEPT !.ver = v, !.tset = ts, !.files = @ \cup {<<x, c>> : x \in A}, !.exp = e]
+         cmd == [act |-> "update", add |-> A, content |-> c, ver |-> v, exp |-> e, allow |-> allow]
+     IN IF ~ToolLoads(allow) THEN Step(cmd, FALSE, "RepoLoad", pub, cli, cl, dl) /\ UNCHANGED mono
+        ELSE /\ Step(cmd, TRUE, "", p, cli, cl, dl)
+             /\ mono' = (mono /\ v.ts >= pub.ver.ts /\ v.sn >= pub.ver.sn /\ v.tg >= pub.ver.tg)
 
 \* tuftool transfer-metadata: the top-level targets are carried under a new root (version 2,
 \* signed by the old root key as well); "same": same role keys, "online": new timestamp and
 \* snapshot keys.  Unknown members and delegations are not carried (the command copies targets).
-Transfer(kind, v) ==
+Transfer(kind, v, e, allow) ==
   /\ Can("transfer") /\ pub.on /\ pub.root = 1 /\ kind \in Rotations
-  /\ LET p == [pub EXCEPT !.root = 2, !.rot = kind, !.ver = v, !.extra = FALSE]
-     IN /\ Step([act |-> "transfer", kind |-> kind, ver |-> v], TRUE, "", p, cli, cl, dl)
-        /\ mono' = (mono /\ v.ts >= pub.ver.ts /\ v.sn >= pub.ver.sn /\ v.tg >= pub.ver.tg)
+  /\ LET p   == [pub EXCEPT !.root = 2, !.rot = kind, !.ver = v, !.extra = FALSE, !.exp = e]
+         cmd == [act |-> "transfer", kind |-> kind, ver |-> v, exp |-> e, allow |-> allow]
+     IN IF ~ToolLoads(allow) THEN Step(cmd, FALSE, "RepoLoad", pub, cli, cl, dl) /\ UNCHANGED mono
+        ELSE /\ Step(cmd, TRUE, "", p, cli, cl, dl)
+             /\ mono' = (mono /\ v.ts >= pub.ver.ts /\ v.sn >= pub.ver.sn /\ v.tg >= pub.ver.tg)
 
 \* a client shipping root 1, with its datastore, loads the repository (tough::RepositoryLoader).
 \* lib.rs load_root 1.9: when the final root's timestamp or snapshot keys differ from the shipped
@@ -105,12 +117,16 @@ Transfer(kind, v) ==
 RefreshResult ==
   LET st == IF pub.rot = "online" THEN [cli EXCEPT !.ts = 0, !.sn = 0, !.sntg = 0] ELSE cli
       v  == pub.ver
+      e  == pub.exp      \* in every phase: rollback check, then expiry, then the document is stored
   IN IF st.ts > v.ts THEN [ok |-> FALSE, err |-> "Older:timestamp", st |-> st]
+     ELSE IF e.ts THEN [ok |-> FALSE, err |-> "Expired:timestamp", st |-> st]
      ELSE LET s1 == [st EXCEPT !.ts = v.ts] IN
      IF s1.sn > v.sn THEN [ok |-> FALSE, err |-> "Older:snapshot", st |-> s1]
      ELSE IF s1.sntg > v.tg THEN [ok |-> FALSE, err |-> "Older:targets", st |-> s1]
+     ELSE IF e.sn THEN [ok |-> FALSE, err |-> "Expired:snapshot", st |-> s1]
      ELSE LET s2 == [s1 EXCEPT !.sn = v.sn, !.sntg = v.tg] IN
      IF s2.tg > v.tg THEN [ok |-> FALSE, err |-> "Older:targets", st |-> s2]
+     ELSE IF e.tg THEN [ok |-> FALSE, err |-> "Expired:targets", st |-> s2]
      ELSE [ok |-> TRUE, err |-> "", st |-> [s2 EXCEPT !.tg = v.tg]]
 Refresh ==
   /\ Can("refresh") /\ pub.on /\ last.act # "refresh"
@@ -121,39 +137,41 @@ Refresh ==
 \* targets (all when none is named) under their digest-prefixed names, then caches the metadata
 \* and the root chain.  A name the repository does not list fails the command: the targets before
 \* it are there, the metadata is not written.
-Clone(S, all) ==
+Clone(S, all, allow) ==
   /\ Can("clone") /\ pub.on
   /\ LET want == IF all THEN Listed(pub.tset) ELSE S
          bad  == want \ Listed(pub.tset)
          done == Before(want, Listed(pub.tset))
          fs   == cl.files \cup {<<x, pub.tset[x]>> : x \in done}
-         k    == [on |-> TRUE, root |-> pub.root, ver |-> pub.ver, meta |-> pub.tset, files |-> fs]
-     IN IF bad = {}
-        THEN Step([act |-> "clone", names |-> S, all |-> all], TRUE, "", pub, cli, k, dl)
-        ELSE Step([act |-> "clone", names |-> S, all |-> all], FALSE, "TargetNotFound", pub, cli, [cl EXCEPT !.files = fs], dl)
+         k    == [on |-> TRUE, root |-> pub.root, ver |-> pub.ver, meta |-> pub.tset, files |-> fs, exp |-> pub.exp]
+         cmd  == [act |-> "clone", names |-> S, all |-> all, allow |-> allow]
+     IN IF ~ToolLoads(allow) THEN Step(cmd, FALSE, "RepoLoad", pub, cli, cl, dl)
+        ELSE IF bad = {} THEN Step(cmd, TRUE, "", pub, cli, k, dl)
+        ELSE Step(cmd, FALSE, "TargetNotFound", pub, cli, [cl EXCEPT !.files = fs], dl)
   /\ UNCHANGED mono
 
 \* tuftool download [-n name]... <outdir>: refuses an existing output directory; saves the named
 \* targets (all when none is named) under their plain names
-Download(S, all) ==
+Download(S, all, allow) ==
   /\ Can("download") /\ pub.on
   /\ LET want == IF all THEN Listed(pub.tset) ELSE S
          bad  == want \ Listed(pub.tset)
          done == Before(want, Listed(pub.tset))
          got  == [x \in Names |-> IF x \in done THEN pub.tset[x] ELSE 0]
-         c    == [act |-> "download", names |-> S, all |-> all]
+         c    == [act |-> "download", names |-> S, all |-> all, allow |-> allow]
      IN IF dl.on THEN Step(c, FALSE, "OutdirExists", pub, cli, cl, dl)
+        ELSE IF ~ToolLoads(allow) THEN Step(c, FALSE, "RepoLoad", pub, cli, cl, dl)
         ELSE Step(c, bad = {}, IF bad = {} THEN "" ELSE "TargetNotFound", pub, cli, cl, [on |-> TRUE, tset |-> got])
   /\ UNCHANGED mono
 
 Next ==
   \/ \E T \in SUBSET Names : Create(T)
   \/ ForeignResign
-  \/ \E A \in SUBSET Names, c \in 1..MaxContent, v \in Vers : Update(A, c, v)
-  \/ \E k \in Rotations, v \in Vers : Transfer(k, v)
+  \/ \E A \in SUBSET Names, c \in 1..MaxContent, v \in Vers, e \in Exps, al \in Allows : Update(A, c, v, e, al)
+  \/ \E k \in Rotations, v \in Vers, e \in Exps, al \in Allows : Transfer(k, v, e, al)
   \/ Refresh
-  \/ \E S \in (SUBSET Names) \ {{}} : Clone(S, FALSE) \/ Download(S, FALSE)
-  \/ Clone({}, TRUE) \/ Download({}, TRUE)
+  \/ \E S \in (SUBSET Names) \ {{}}, al \in Allows : Clone(S, FALSE, al) \/ Download(S, FALSE, al)
+  \/ \E al \in Allows : Clone({}, TRUE, al) \/ Download({}, TRUE, al)
 Spec == Init /\ [][Next]_vars
 
 -----------------------------------------------------------------------------
@@ -179,9 +197,15 @@ ClientMonotone ==
 RefreshSeesPublished ==
   last.act = "refresh" /\ last.ok => cli.ts = pub.ver.ts /\ cli.sn = pub.ver.sn /\ cli.tg = pub.ver.tg /\ cli.sntg = pub.ver.tg
 \* a publisher that never lowers a version never locks its clients out
-MonotonePublisherServes == last.act = "refresh" /\ mono => last.ok
+MonotonePublisherServes == last.act = "refresh" /\ mono /\ ~IsExpired(pub.exp) => last.ok
 \* a refusal is always about a version that went down
-RefusalMeansRollback == last.act = "refresh" /\ ~last.ok => ~mono
+RefusalMeansRollback == last.act = "refresh" /\ ~last.ok => ~mono \/ IsExpired(pub.exp)
+\* C04 at the system level: a client with enforcement on never ends a refresh successfully on expired metadata,
+\* and a tool without --allow-expired-repo never acts on it
+ExpiredNeverTrusted == last.act = "refresh" /\ last.ok => ~IsExpired(pub.exp)
+ToolsRefuseExpired ==
+  last.act \in {"update", "transfer", "clone", "download"} /\ last.ok /\ Len(hist) > 0 =>
+     LET h == hist[Len(hist)] IN h.cmd.allow \/ ~h.before
 
 \* C19 at the command level
 CloneFaithful ==
